@@ -1,10 +1,12 @@
 (* C05 — Every chunk is returned to the base allocator exactly once and fits.
    PARTIAL: exactly-once release on drop, fitting layouts, reset keeping the last chunk and
-   scope operations releasing nothing are proved over the model; "never read or written
-   afterwards" and "never touches bytes outside granted blocks" are monitored on the
-   implementation (poisoning, guard bytes) but not proved. *)
+   scope operations releasing nothing are proved over the model, and so is "never touches bytes
+   outside the blocks it was granted" for the data the arena itself writes (zeroing, the copies of
+   grow / shrink / commit, fill): every changed byte lies inside a granted block the arena holds
+   after the operation — hence not in a released one (ArenaWrites.v).  Writes to chunk headers are
+   not modelled; they, and reads, are monitored on the implementation (poisoning, guard bytes). *)
 From Coq Require Import ZArith List Permutation.
-From BS Require Import Word BumpSpec ChunkSpec Arena ArenaInv ArenaStats ArenaMisc.
+From BS Require Import Word BumpSpec ChunkSpec Arena ArenaInv ArenaStats ArenaMisc ArenaExt ArenaInv2 ArenaWrites.
 Import ListNotations.
 Open Scope Z_scope.
 
@@ -40,8 +42,36 @@ Theorem C05_refused_links_nothing :
             frame s (fst (grow_arena c s size align None)).
 Proof. exact refused_grow_is_error. Qed.
 
+(* whatever byte an operation of the arena changes lies inside a block granted by the base
+   allocator that the arena holds afterwards (OWriteRaw is the user's own write into a range it was
+   handed; alloc_try_with Err writes nothing it keeps; shrink: next theorem) *)
+Theorem C05_writes_stay_inside_granted_blocks :
+  forall c s0 o r a,
+  cfg_ok c -> inv c s0 -> op_ok2 c s0 o -> op_resp_ok2 c s0 o r ->
+  match o with OWriteRaw _ _ _ | OTryErr _ _ _ _ | OShrink _ _ _ _ _ => False | _ => True end ->
+  mem (fst (step c s0 o r)) a <> mem s0 a -> in_granted (fst (step c s0 o r)) a.
+Proof. exact writes_stay_inside_granted_blocks. Qed.
+
+Theorem C05_shrink_writes_stay_inside_granted_blocks :
+  forall c s0 h ws b nsize nalign r a,
+  cfg_ok c -> inv c s0 -> fix_without_shrink c = true ->
+  op_ok2 c s0 (OShrink h ws b nsize nalign) -> op_resp_ok2 c s0 (OShrink h ws b nsize nalign) r ->
+  mem (fst (step c s0 (OShrink h ws b nsize nalign) r)) a <> mem s0 a ->
+  in_granted (fst (step c s0 (OShrink h ws b nsize nalign) r)) a.
+Proof. exact shrink_writes_stay_inside_granted_blocks. Qed.
+
+(* the block an operation returns is a live block of the state it leaves *)
+Theorem C05_result_block_is_live :
+  forall c s0 o r id p sz,
+  o_res (snd (step c s0 o r)) = RBlock id p sz ->
+  exists blk, In blk (live (fst (step c s0 o r))) /\ bptr blk = p /\ bsize blk = sz.
+Proof. exact result_block_is_live. Qed.
+
 Print Assumptions C05_drop_releases_each_chunk_once.
 Print Assumptions C05_released_layout_fits.
 Print Assumptions C05_reset_keeps_exactly_last.
 Print Assumptions C05_scope_exit_releases_none.
 Print Assumptions C05_refused_links_nothing.
+Print Assumptions C05_writes_stay_inside_granted_blocks.
+Print Assumptions C05_shrink_writes_stay_inside_granted_blocks.
+Print Assumptions C05_result_block_is_live.
